@@ -166,7 +166,7 @@ static void run_objects(long idx, Rng& r) {
         Bytes base; try { if (!dynamic_cast<IP*>(k.get())) base = k->serialize(); } catch (...) {}
         if (dynamic_cast<IP*>(k.get())) { IP ip("1.2.3.4", "4.3.2.1"); base = ip.serialize(); }
         describe_case("objects: first-octet sweep K=" + kd.name);
-        for (u32 pos = 0; pos < 8 && pos < base.size(); ++pos) for (u32 v = 0; v < 256; ++v) {
+        for (u32 pos = 0; pos < 16 && pos < base.size(); ++pos) for (u32 v = 0; v < 256; ++v) {
             Bytes b = base; b[pos] = (u8)v; if (b.size() < 64) b.resize(b.size() + 32, 0);
             std::unique_ptr<PDU> p; try { ExactBuf eb(b); p.reset(kd.from_bytes(eb.data(), (u32)b.size())); } catch (const exception_base&) { cnt("first_octet_rejected"); continue; }
             if (!p) break;
@@ -174,6 +174,20 @@ static void run_objects(long idx, Rng& r) {
         }
         // setters that exist on whole families
         if (Dot11* d = dynamic_cast<Dot11*>(k.get())) for (u32 ty = 0; ty < 4; ++ty) for (u32 st = 0; st < 16; ++st) { d->type(ty); d->subtype(st); cnt("dot11_type_subtype_objects"); check_object(d, "type(" + std::to_string(ty) + ") subtype(" + std::to_string(st) + ")"); std::unique_ptr<PDU> c(d->clone()); check_object(c.get(), "clone after type/subtype setters"); }
+        return;
+    }
+    // (a') base-class (slicing) copies of derived layers, taken after look-ups have walked over the derived object: the copy really is a Base
+    if ((size_t)idx == Ks.size()) {
+        auto slice = [&](PDU* derived, PDU* base_copy, const char* what) { std::unique_ptr<PDU> d(derived), b(base_copy); cnt("sliced_copies"); check_object(b.get(), std::string("base-class copy: ") + what); check_object(d.get(), std::string("source of a base-class copy: ") + what); };
+        { Dot11QoSData* q = new Dot11QoSData(); q->find_pdu<Dot11QoSData>(); q->find_pdu<Dot11Data>(); q->find_pdu<Dot11>(); slice(q, new Dot11Data(*q), "Dot11Data(Dot11QoSData)"); }
+        { Dot11QoSData* q = new Dot11QoSData(); q->find_pdu<Dot11QoSData>(); slice(q, new Dot11(*q), "Dot11(Dot11QoSData)"); }
+        { Dot11Data* q = new Dot11Data(); q->find_pdu<Dot11Data>(); slice(q, new Dot11(*q), "Dot11(Dot11Data)"); }
+        { DHCP* q = new DHCP(); q->find_pdu<DHCP>(); q->find_pdu<BootP>(); slice(q, new BootP(*q), "BootP(DHCP)"); }
+        { Dot11Beacon* q = new Dot11Beacon(); q->find_pdu<Dot11Beacon>(); q->find_pdu<Dot11ManagementFrame>(); slice(q, new Dot11(*q), "Dot11(Dot11Beacon)"); }
+        { Dot11RTS* q = new Dot11RTS(); q->find_pdu<Dot11RTS>(); q->find_pdu<Dot11Control>(); slice(q, new Dot11Control(*q), "Dot11Control(Dot11RTS)"); }
+        { Dot11BlockAck* q = new Dot11BlockAck(); q->find_pdu<Dot11BlockAck>(); slice(q, new Dot11(*q), "Dot11(Dot11BlockAck)"); }
+        // and inside a chain, found through the chain search first
+        { EthernetII e = EthernetII() / IP("1.2.3.4", "4.3.2.1") / UDP(67, 68) / DHCP(); e.find_pdu<DHCP>(); e.find_pdu<BootP>(); DHCP* dh = e.find_pdu<DHCP>(); if (dh) { BootP* b = new BootP(*dh); std::unique_ptr<PDU> bb(b); check_object(b, "BootP copy of a DHCP found in a chain"); cnt("sliced_copies"); } }
         return;
     }
     // (b) API-built packets, (c) parsed seeds / mutations / generated inputs
